@@ -334,7 +334,7 @@ structure Mem.WF (m : Mem L) : Prop where
   acq : ∀ t, View.Bounded m (m.tv t).acq
   rel : ∀ t, View.Bounded m (m.tv t).rel
   sc : View.Bounded m m.sc
-  msg : ∀ l ts (mg : Msg L), (m.hist l)[ts]? = some mg → View.Bounded m mg.view
+  msg : ∀ (l : L) (ts : Nat) (mg : Msg L), (m.hist l)[ts]? = some mg → View.Bounded m mg.view
   cur_acq : ∀ t, (m.tv t).cur ≤ (m.tv t).acq
   rel_cur : ∀ t, (m.tv t).rel ≤ (m.tv t).cur
 
@@ -486,5 +486,438 @@ theorem Mem.fence_wf (m : Mem L) (t : Nat) (o : Core.Ord) (h : m.WF) : (m.fence 
           | exact h.rel_cur _
           | exact View.le_refl _
           | exact View.le_trans (h.rel_cur _) (View.le_join_left _ _)
+
+/-! #### load -/
+
+theorem Mem.read_spec {m m' : Mem L} {t : Nat} {l : L} {o : Core.Ord} {ts v : Nat}
+    (h : m.read t l o ts = some (m', v)) :
+    ∃ msg, (m.hist l)[ts]? = some msg ∧ v = msg.val ∧ (m.tv t).cur.get l ≤ ts ∧
+      m' = { m with tv := upd m.tv t ((m.tv t).read msg l ts o) } := by
+  unfold Mem.read at h
+  split at h
+  · cases h
+  · rename_i msg hm
+    split at h
+    · rename_i hle
+      cases h
+      exact ⟨msg, hm, rfl, hle, rfl⟩
+    · cases h
+
+theorem Mem.read_hist {m m' : Mem L} {t : Nat} {l : L} {o : Core.Ord} {ts v : Nat}
+    (h : m.read t l o ts = some (m', v)) : m'.hist = m.hist := by
+  obtain ⟨_, _, _, _, rfl⟩ := Mem.read_spec h; rfl
+
+theorem Mem.read_sc {m m' : Mem L} {t : Nat} {l : L} {o : Core.Ord} {ts v : Nat}
+    (h : m.read t l o ts = some (m', v)) : m'.sc = m.sc := by
+  obtain ⟨_, _, _, _, rfl⟩ := Mem.read_spec h; rfl
+
+theorem Mem.read_tv_other {m m' : Mem L} {t : Nat} {l : L} {o : Core.Ord} {ts v : Nat}
+    (h : m.read t l o ts = some (m', v)) (t' : Nat) (ht : t' ≠ t) : m'.tv t' = m.tv t' := by
+  obtain ⟨_, _, _, _, rfl⟩ := Mem.read_spec h; simp [ht]
+
+theorem Mem.read_len {m m' : Mem L} {t : Nat} {l : L} {o : Core.Ord} {ts v : Nat}
+    (h : m.read t l o ts = some (m', v)) (l' : L) : m'.len l' = m.len l' := by
+  simp [Mem.len, Mem.read_hist h]
+
+theorem Mem.read_ts_lt {m m' : Mem L} {t : Nat} {l : L} {o : Core.Ord} {ts v : Nat}
+    (h : m.read t l o ts = some (m', v)) : ts < m.len l := by
+  obtain ⟨msg, hm, _, _, _⟩ := Mem.read_spec h
+  rcases Nat.lt_or_ge ts (m.hist l).length with h | h
+  · exact h
+  · rw [List.getElem?_eq_none h] at hm; cases hm
+
+theorem TView.read_cur_le (T : TView L) (msg : Msg L) (l : L) (ts : Nat) (o : Core.Ord) :
+    T.cur ≤ (T.read msg l ts o).cur := by
+  unfold TView.read; simp only
+  split
+  · exact View.le_join_left _ _
+  · exact View.le_bump _ _ _
+
+theorem TView.read_acq_le (T : TView L) (msg : Msg L) (l : L) (ts : Nat) (o : Core.Ord) :
+    T.acq ≤ (T.read msg l ts o).acq := View.le_join_left _ _
+
+/-- after a load of `(l, ts)` the thread's view of `l` is at least `ts` (coherence) -/
+theorem TView.read_cur_ts (T : TView L) (msg : Msg L) (l : L) (ts : Nat) (o : Core.Ord) :
+    ts ≤ (T.read msg l ts o).cur.get l := by
+  unfold TView.read msgView; simp only
+  split <;> simp <;> omega
+
+/-- an acquire load makes the message's view part of the thread's `cur` view -/
+theorem TView.read_acquires (T : TView L) (msg : Msg L) (l : L) (ts : Nat) (o : Core.Ord)
+    (ho : o.acquires = true) : msg.view ≤ (T.read msg l ts o).cur := by
+  unfold TView.read msgView; simp only [ho, if_true]
+  exact View.le_trans (View.le_bump _ _ _) (View.le_join_right _ _)
+
+/-- any load makes the message's view part of the thread's `acq` view (picked up by the next
+acquire or SC fence) -/
+theorem TView.read_acq_view (T : TView L) (msg : Msg L) (l : L) (ts : Nat) (o : Core.Ord) :
+    msg.view ≤ (T.read msg l ts o).acq :=
+  View.le_trans (View.le_bump _ _ _) (View.le_join_right _ _)
+
+theorem Mem.read_ext {m m' : Mem L} {t : Nat} {l : L} {o : Core.Ord} {ts v : Nat}
+    (h : m.read t l o ts = some (m', v)) : m.Ext m' := by
+  obtain ⟨msg, _, _, _, rfl⟩ := Mem.read_spec h
+  refine ⟨fun l => ⟨[], by simp⟩, fun t' => ?_, fun t' => ?_, View.le_refl _⟩
+  · by_cases e : t' = t
+    · subst e; simp; exact TView.read_cur_le _ _ _ _ _
+    · simp [e]; exact View.le_refl _
+  · by_cases e : t' = t
+    · subst e; simp; exact TView.read_acq_le _ _ _ _ _
+    · simp [e]; exact View.le_refl _
+
+theorem Mem.read_wf {m m' : Mem L} {t : Nat} {l : L} {o : Core.Ord} {ts v : Nat}
+    (h : m.read t l o ts = some (m', v)) (w : m.WF) : m'.WF := by
+  have hts := Mem.read_ts_lt h
+  obtain ⟨msg, hm, _, _, rfl⟩ := Mem.read_spec h
+  have hmv : View.Bounded m (msgView msg l ts) := (w.msg l ts msg hm).bump hts
+  have tvcase : ∀ t', (upd m.tv t ((m.tv t).read msg l ts o)) t' = m.tv t' ∨ t' = t := fun t' => by
+    by_cases e : t' = t
+    · exact Or.inr e
+    · exact Or.inl (by simp [e])
+  constructor
+  · exact w.nonempty
+  · intro t'
+    show View.Bounded m _
+    rcases tvcase t' with e | e
+    · simp only; rw [e]; exact w.cur t'
+    · subst e
+      simp only [upd_same, TView.read]
+      split
+      · exact (w.cur _).join hmv
+      · exact (w.cur _).bump hts
+  · intro t'
+    show View.Bounded m _
+    rcases tvcase t' with e | e
+    · simp only; rw [e]; exact w.acq t'
+    · subst e
+      simp only [upd_same, TView.read]
+      exact (w.acq _).join hmv
+  · intro t'
+    show View.Bounded m _
+    rcases tvcase t' with e | e
+    · simp only; rw [e]; exact w.rel t'
+    · subst e
+      simp only [upd_same, TView.read]
+      exact w.rel _
+  · exact w.sc
+  · exact w.msg
+  · intro t'
+    rcases tvcase t' with e | e
+    · simp only; rw [e]; exact w.cur_acq t'
+    · subst e
+      simp only [upd_same, TView.read]
+      split
+      · exact View.join_mono (w.cur_acq _) (View.le_refl _)
+      · apply View.bump_le (View.le_trans (w.cur_acq _) (View.le_join_left _ _))
+        have : ts ≤ (msgView msg l ts).get l := View.get_bump_self _ _ _
+        have h2 := View.le_join_right (m.tv t').acq (msgView msg l ts) l
+        omega
+  · intro t'
+    rcases tvcase t' with e | e
+    · simp only; rw [e]; exact w.rel_cur t'
+    · subst e
+      simp only [upd_same]
+      exact View.le_trans (w.rel_cur _) (TView.read_cur_le _ _ _ _ _)
+
+/-! #### store -/
+
+@[simp] theorem Mem.write_hist_same (m : Mem L) (t : Nat) (l : L) (o : Core.Ord) (v : Nat) :
+    (m.write t l o v).hist l = m.hist l ++ [⟨v, ((m.tv t).wrote l (m.len l)).relView l (m.len l) o⟩] := by
+  simp [Mem.write]
+
+theorem Mem.write_hist_other (m : Mem L) (t : Nat) (l : L) (o : Core.Ord) (v : Nat) (l' : L) (h : l' ≠ l) :
+    (m.write t l o v).hist l' = m.hist l' := by
+  simp [Mem.write, h]
+
+@[simp] theorem Mem.write_len_same (m : Mem L) (t : Nat) (l : L) (o : Core.Ord) (v : Nat) :
+    (m.write t l o v).len l = m.len l + 1 := by
+  simp [Mem.len]
+
+theorem Mem.write_len_other (m : Mem L) (t : Nat) (l : L) (o : Core.Ord) (v : Nat) (l' : L) (h : l' ≠ l) :
+    (m.write t l o v).len l' = m.len l' := by
+  simp [Mem.len, Mem.write_hist_other _ _ _ _ _ _ h]
+
+theorem Mem.write_len_le (m : Mem L) (t : Nat) (l : L) (o : Core.Ord) (v : Nat) (l' : L) :
+    m.len l' ≤ (m.write t l o v).len l' := by
+  by_cases h : l' = l
+  · subst h; simp
+  · rw [Mem.write_len_other _ _ _ _ _ _ h]; exact Nat.le_refl _
+
+@[simp] theorem Mem.write_sc (m : Mem L) (t : Nat) (l : L) (o : Core.Ord) (v : Nat) :
+    (m.write t l o v).sc = m.sc := rfl
+
+@[simp] theorem Mem.write_tv_same (m : Mem L) (t : Nat) (l : L) (o : Core.Ord) (v : Nat) :
+    (m.write t l o v).tv t = (m.tv t).wrote l (m.len l) := by
+  simp [Mem.write]
+
+theorem Mem.write_tv_other (m : Mem L) (t : Nat) (l : L) (o : Core.Ord) (v : Nat) (t' : Nat) (h : t' ≠ t) :
+    (m.write t l o v).tv t' = m.tv t' := by
+  simp [Mem.write, h]
+
+theorem Mem.write_ext (m : Mem L) (t : Nat) (l : L) (o : Core.Ord) (v : Nat) : m.Ext (m.write t l o v) := by
+  refine ⟨fun l' => ?_, fun t' => ?_, fun t' => ?_, View.le_refl _⟩
+  · by_cases h : l' = l
+    · subst h; exact ⟨_, Mem.write_hist_same _ _ _ _ _⟩
+    · exact ⟨[], by simp [Mem.write_hist_other _ _ _ _ _ _ h]⟩
+  · by_cases e : t' = t
+    · subst e; simp [TView.wrote]; exact View.le_bump _ _ _
+    · rw [Mem.write_tv_other _ _ _ _ _ _ e]; exact View.le_refl _
+  · by_cases e : t' = t
+    · subst e; simp [TView.wrote]; exact View.le_bump _ _ _
+    · rw [Mem.write_tv_other _ _ _ _ _ _ e]; exact View.le_refl _
+
+theorem TView.wrote_bounded {m m' : Mem L} {T : TView L} {l : L}
+    (hlen : ∀ l', m.len l' ≤ m'.len l') (hl : m.len l < m'.len l)
+    (hc : View.Bounded m T.cur) (ha : View.Bounded m T.acq) (hr : View.Bounded m T.rel) :
+    View.Bounded m' (T.wrote l (m.len l)).cur ∧ View.Bounded m' (T.wrote l (m.len l)).acq ∧
+      View.Bounded m' (T.wrote l (m.len l)).rel :=
+  ⟨(hc.mono hlen).bump hl, (ha.mono hlen).bump hl, hr.mono hlen⟩
+
+theorem TView.relView_bounded {m' : Mem L} {T : TView L} {l : L} {ts : Nat} {o : Core.Ord}
+    (hc : View.Bounded m' T.cur) (hr : View.Bounded m' T.rel) (hts : ts < m'.len l) :
+    View.Bounded m' (T.relView l ts o) := by
+  unfold TView.relView; split
+  · exact hc
+  · exact hr.bump hts
+
+theorem Mem.write_wf (m : Mem L) (t : Nat) (l : L) (o : Core.Ord) (v : Nat) (w : m.WF) : (m.write t l o v).WF := by
+  have hlen := Mem.write_len_le m t l o v
+  have hl : m.len l < (m.write t l o v).len l := by simp
+  obtain ⟨bc, ba, br⟩ := TView.wrote_bounded (T := m.tv t) hlen hl (w.cur t) (w.acq t) (w.rel t)
+  have tvcase : ∀ t', (m.write t l o v).tv t' = m.tv t' ∨ t' = t := fun t' => by
+    by_cases e : t' = t
+    · exact Or.inr e
+    · exact Or.inl (Mem.write_tv_other _ _ _ _ _ _ e)
+  constructor
+  · intro l'; exact Nat.lt_of_lt_of_le (w.nonempty l') (hlen l')
+  · intro t'
+    rcases tvcase t' with e | e
+    · rw [e]; exact (w.cur t').mono hlen
+    · subst e; rw [Mem.write_tv_same]; exact bc
+  · intro t'
+    rcases tvcase t' with e | e
+    · rw [e]; exact (w.acq t').mono hlen
+    · subst e; rw [Mem.write_tv_same]; exact ba
+  · intro t'
+    rcases tvcase t' with e | e
+    · rw [e]; exact (w.rel t').mono hlen
+    · subst e; rw [Mem.write_tv_same]; exact br
+  · exact w.sc.mono hlen
+  · intro l' ts mg hm
+    by_cases h : l' = l
+    · subst h
+      rw [Mem.write_hist_same] at hm
+      rcases Nat.lt_or_ge ts (m.hist l').length with hlt | hge
+      · rw [List.getElem?_append_left hlt] at hm
+        exact (w.msg l' ts mg hm).mono hlen
+      · rw [List.getElem?_append_right hge] at hm
+        have : ts - (m.hist l').length = 0 := by
+          rcases Nat.eq_zero_or_pos (ts - (m.hist l').length) with h0 | h0
+          · exact h0
+          · rw [List.getElem?_eq_none (by simp; omega)] at hm; cases hm
+        rw [this] at hm
+        simp at hm
+        subst hm
+        exact TView.relView_bounded bc br hl
+    · rw [Mem.write_hist_other _ _ _ _ _ _ h] at hm
+      exact (w.msg l' ts mg hm).mono hlen
+  · intro t'
+    rcases tvcase t' with e | e
+    · rw [e]; exact w.cur_acq t'
+    · subst e; rw [Mem.write_tv_same]; exact View.bump_mono (w.cur_acq _) _ _
+  · intro t'
+    rcases tvcase t' with e | e
+    · rw [e]; exact w.rel_cur t'
+    · subst e; rw [Mem.write_tv_same]; exact View.le_trans (w.rel_cur _) (View.le_bump _ _ _)
+
+/-! #### RMW -/
+
+theorem Mem.rmwCore_spec {m m' : Mem L} {t : Nat} {l : L} {o : Core.Ord} {f : Nat → Nat} {old : Nat}
+    (h : m.rmwCore t l o f = some (m', old)) :
+    ∃ msg, (m.hist l).getLast? = some msg ∧ old = msg.val ∧
+      m' = { m with
+        hist := upd m.hist l (m.hist l ++ [⟨f msg.val,
+          ((((m.tv t).read msg l (m.len l - 1) o).wrote l (m.len l)).relView l (m.len l) o).join msg.view⟩]),
+        tv := upd m.tv t (((m.tv t).read msg l (m.len l - 1) o).wrote l (m.len l)) } := by
+  unfold Mem.rmwCore at h
+  split at h
+  · cases h
+  · rename_i msg hm
+    cases h
+    exact ⟨msg, hm, rfl, rfl⟩
+
+theorem getLast?_getElem? {α : Type} (xs : List α) (a : α) (h : xs.getLast? = some a) :
+    xs[xs.length - 1]? = some a := by
+  rw [List.getLast?_eq_getElem?] at h; exact h
+
+theorem Mem.rmwCore_ext {m m' : Mem L} {t : Nat} {l : L} {o : Core.Ord} {f : Nat → Nat} {old : Nat}
+    (h : m.rmwCore t l o f = some (m', old)) : m.Ext m' := by
+  obtain ⟨msg, _, _, rfl⟩ := Mem.rmwCore_spec h
+  refine ⟨fun l' => ?_, fun t' => ?_, fun t' => ?_, View.le_refl _⟩
+  · by_cases e : l' = l
+    · subst e; exact ⟨_, upd_same _ _ _⟩
+    · exact ⟨[], by simp [e]⟩
+  · by_cases e : t' = t
+    · subst e; simp [TView.wrote]
+      exact View.le_trans (TView.read_cur_le _ _ _ _ _) (View.le_bump _ _ _)
+    · simp [e]; exact View.le_refl _
+  · by_cases e : t' = t
+    · subst e; simp [TView.wrote]
+      exact View.le_trans (TView.read_acq_le _ _ _ _ _) (View.le_bump _ _ _)
+    · simp [e]; exact View.le_refl _
+
+theorem Mem.rmwCore_wf {m m' : Mem L} {t : Nat} {l : L} {o : Core.Ord} {f : Nat → Nat} {old : Nat}
+    (h : m.rmwCore t l o f = some (m', old)) (w : m.WF) : m'.WF := by
+  obtain ⟨msg, hlast, _, rfl⟩ := Mem.rmwCore_spec h
+  have hne := w.nonempty l
+  have hm : (m.hist l)[m.len l - 1]? = some msg := getLast?_getElem? _ _ hlast
+  have htr : m.len l - 1 < m.len l := by omega
+  have hmv : View.Bounded m (msgView msg l (m.len l - 1)) := (w.msg l _ msg hm).bump htr
+  generalize hT1 : (m.tv t).read msg l (m.len l - 1) o = T1
+  have b1c : View.Bounded m T1.cur := by
+    subst hT1; simp only [TView.read]; split
+    · exact (w.cur _).join hmv
+    · exact (w.cur _).bump htr
+  have b1a : View.Bounded m T1.acq := by subst hT1; exact (w.acq _).join hmv
+  have b1r : View.Bounded m T1.rel := by subst hT1; exact w.rel _
+  have c1 : T1.cur ≤ T1.acq := by
+    subst hT1; simp only [TView.read]; split
+    · exact View.join_mono (w.cur_acq _) (View.le_refl _)
+    · apply View.bump_le (View.le_trans (w.cur_acq _) (View.le_join_left _ _))
+      have : m.len l - 1 ≤ (msgView msg l (m.len l - 1)).get l := View.get_bump_self _ _ _
+      have h2 := View.le_join_right (m.tv t).acq (msgView msg l (m.len l - 1)) l
+      omega
+  have r1 : T1.rel ≤ T1.cur := by subst hT1; exact View.le_trans (w.rel_cur _) (TView.read_cur_le _ _ _ _ _)
+  generalize hM : ({ m with
+        hist := upd m.hist l (m.hist l ++ [⟨f msg.val, ((T1.wrote l (m.len l)).relView l (m.len l) o).join msg.view⟩]),
+        tv := upd m.tv t (T1.wrote l (m.len l)) } : Mem L) = M
+  have hlenl : M.len l = m.len l + 1 := by subst hM; simp [Mem.len]
+  have hleno : ∀ l', l' ≠ l → M.len l' = m.len l' := fun l' e => by subst hM; simp [Mem.len, e]
+  have hlen : ∀ l', m.len l' ≤ M.len l' := fun l' => by
+    by_cases e : l' = l
+    · subst e; omega
+    · rw [hleno l' e]; exact Nat.le_refl _
+  have hl : m.len l < M.len l := by omega
+  obtain ⟨bc, ba, br⟩ := TView.wrote_bounded (T := T1) hlen hl b1c b1a b1r
+  have tvsame : M.tv t = T1.wrote l (m.len l) := by subst hM; simp
+  have tvcase : ∀ t', M.tv t' = m.tv t' ∨ t' = t := fun t' => by
+    by_cases e : t' = t
+    · exact Or.inr e
+    · exact Or.inl (by subst hM; simp [e])
+  constructor
+  · intro l'; exact Nat.lt_of_lt_of_le (w.nonempty l') (hlen l')
+  · intro t'
+    rcases tvcase t' with e | e
+    · rw [e]; exact (w.cur t').mono hlen
+    · subst e; rw [tvsame]; exact bc
+  · intro t'
+    rcases tvcase t' with e | e
+    · rw [e]; exact (w.acq t').mono hlen
+    · subst e; rw [tvsame]; exact ba
+  · intro t'
+    rcases tvcase t' with e | e
+    · rw [e]; exact (w.rel t').mono hlen
+    · subst e; rw [tvsame]; exact br
+  · have : M.sc = m.sc := by subst hM; rfl
+    rw [this]; exact w.sc.mono hlen
+  · intro l' ts mg hmg
+    by_cases e : l' = l
+    · subst e
+      have hh : M.hist l' = m.hist l' ++ [⟨f msg.val, ((T1.wrote l' (m.len l')).relView l' (m.len l') o).join msg.view⟩] := by
+        subst hM; simp
+      rw [hh] at hmg
+      rcases Nat.lt_or_ge ts (m.hist l').length with hlt | hge
+      · rw [List.getElem?_append_left hlt] at hmg
+        exact (w.msg l' ts mg hmg).mono hlen
+      · rw [List.getElem?_append_right hge] at hmg
+        have : ts - (m.hist l').length = 0 := by
+          rcases Nat.eq_zero_or_pos (ts - (m.hist l').length) with h0 | h0
+          · exact h0
+          · rw [List.getElem?_eq_none (by simp; omega)] at hmg; cases hmg
+        rw [this] at hmg
+        simp at hmg
+        subst hmg
+        exact (TView.relView_bounded bc br hl).join ((w.msg l' _ msg hm).mono hlen)
+    · have hh : M.hist l' = m.hist l' := by subst hM; simp [e]
+      rw [hh] at hmg
+      exact (w.msg l' ts mg hmg).mono hlen
+  · intro t'
+    rcases tvcase t' with e | e
+    · rw [e]; exact w.cur_acq t'
+    · subst e; rw [tvsame]; exact View.bump_mono c1 _ _
+  · intro t'
+    rcases tvcase t' with e | e
+    · rw [e]; exact w.rel_cur t'
+    · subst e; rw [tvsame]; exact View.le_trans r1 (View.le_bump _ _ _)
+
+theorem Mem.rmw_ext {m m' : Mem L} {t : Nat} {l : L} {o : Core.Ord} {f : Nat → Nat} {old : Nat}
+    (h : m.rmw t l o f = some (m', old)) : m.Ext m' := by
+  unfold Mem.rmw at h
+  split at h
+  · split at h
+    · cases h
+    · rename_i m1 old1 h1
+      cases h
+      exact ((Mem.fence_ext m t .sc).trans (Mem.rmwCore_ext h1)).trans (Mem.fence_ext _ t .sc)
+  · exact Mem.rmwCore_ext h
+
+theorem Mem.rmw_wf {m m' : Mem L} {t : Nat} {l : L} {o : Core.Ord} {f : Nat → Nat} {old : Nat}
+    (h : m.rmw t l o f = some (m', old)) (w : m.WF) : m'.WF := by
+  unfold Mem.rmw at h
+  split at h
+  · split at h
+    · cases h
+    · rename_i m1 old1 h1
+      cases h
+      exact Mem.fence_wf _ _ _ (Mem.rmwCore_wf h1 (Mem.fence_wf _ _ _ w))
+  · exact Mem.rmwCore_wf h w
+
+/-! #### compare-exchange -/
+
+theorem Mem.cas_ext {m m' : Mem L} {t : Nat} {l : L} {so fo : Core.Ord} {e d ts : Nat} {ok : Bool} {obs : Nat}
+    (h : m.cas t l so fo e d ts = some (m', ok, obs)) : m.Ext m' := by
+  unfold Mem.cas at h
+  split at h
+  · cases h
+  · split at h
+    · split at h
+      · split at h
+        · cases h
+        · rename_i h1; cases h; exact Mem.rmw_ext h1
+      · cases h
+    · split at h
+      · cases h
+      · rename_i h1; cases h; exact Mem.read_ext h1
+
+theorem Mem.cas_wf {m m' : Mem L} {t : Nat} {l : L} {so fo : Core.Ord} {e d ts : Nat} {ok : Bool} {obs : Nat}
+    (h : m.cas t l so fo e d ts = some (m', ok, obs)) (w : m.WF) : m'.WF := by
+  unfold Mem.cas at h
+  split at h
+  · cases h
+  · split at h
+    · split at h
+      · split at h
+        · cases h
+        · rename_i h1; cases h; exact Mem.rmw_wf h1 w
+      · cases h
+    · split at h
+      · cases h
+      · rename_i h1; cases h; exact Mem.read_wf h1 w
+
+theorem Mem.init_wf (iv : L → Nat) : (Mem.init iv).WF := by
+  have hb : View.Bounded (Mem.init iv) (View.bot : View L) := fun l => by simp [Mem.init, Mem.len]
+  constructor
+  · intro l; simp [Mem.init, Mem.len]
+  · intro t; exact hb
+  · intro t; exact hb
+  · intro t; exact hb
+  · exact hb
+  · intro l ts mg hm
+    simp only [Mem.init] at hm
+    rcases ts with _ | ts
+    · simp at hm; subst hm; exact hb
+    · simp at hm
+  · intro t; exact View.le_refl _
+  · intro t; exact View.le_refl _
 
 end Babylon.Core.MemView
